@@ -305,13 +305,23 @@ pub fn malform(r: &mut Rng, e: &mut EchoReq) -> Option<String> {
                 (1, "%2537"),
                 (2, "%252d1"),
                 (3, "%2531"),
+                // white space around a number is not part of a number
+                (1, "%2037"),
+                (1, "37%20"),
+                (2, "-1%0A"),
+                (2, "%09-1"),
+                (3, "%2065536%20"),
+                (3, "%0D%0A1"),
+                (3, "1%E2%80%83"),
             ]);
             e.path_segs[idx] = bad.to_string();
             Some(format!("narrow path segment {idx} = {bad}"))
         }
         "echo_page" => {
             let b64 = |t: &str| crate::sha1::base64_url(t.as_bytes());
-            let (key, val, why): (&str, String, &str) = match r.below(18) {
+            let (key, val, why): (&str, String, &str) = match r.below(20) {
+                18 => ("min", (*r.pick(&["%207", "+7", "7%20", "7%0A", "%09-3"])).into(), "scan parameter min padded with white space"),
+                19 => ("flag", (*r.pick(&["%20true", "true+", "false%0A"])).into(), "scan parameter flag padded with white space"),
                 10 => ("min", "".into(), "scan parameter min= (empty, not a number)"),
                 11 => ("min", "abc".into(), "scan parameter min=abc"),
                 12 => ("min", "9223372036854775808".into(), "scan parameter min out of range"),
